@@ -83,7 +83,11 @@ impl Vm {
                 return Err(ParserState::new(state.position().line_of()));
             }
         }
-        match rule {
+        // Rules defined in the grammar take precedence over the built-in rules of the same name
+        // (only the non-keyword built-ins, e.g. `ASCII_DIGIT`, can be redefined), as they do in
+        // the generated parsers.
+        let builtin = if self.rules.contains_key(rule) { "" } else { rule };
+        match builtin {
             "ANY" => return state.skip(1),
             "EOI" => return state.rule("EOI", |state| state.end_of_input()),
             "SOI" => return state.start_of_input(),
